@@ -181,6 +181,7 @@ func (api *PublicFilterAPI) NewPendingTransactionFilter() rpc.ID {
 				api.filtersMu.Lock()
 				delete(api.filters, pendingTxSub.ID())
 				api.filtersMu.Unlock()
+				return
 			}
 		}
 	}(pendingTxSub.eventCh, pendingTxSub.Err())
